@@ -319,6 +319,37 @@ theorem c18_claim_never_mints_admin (requested : Option Role) :
   | none => decide
   | some r => cases r <;> decide
 
+/-- **Revocation by id is complete.**  Token ids are derived from the clock (`pair-<seconds>`), so two
+pairings claimed within the same second share an id; `revoke` disables EVERY token carrying the id … -/
+theorem c18_revoke_disables_every_token_with_id (p : Pairing) (now : Nat) (id : String) :
+    ∀ e ∈ (p.revoke now id).1.tokens, e.id = id → e.enabled = false :=
+  revoke_disables_id p now id
+
+/-- … hence after `revoke id` no token string handed out under that id maps to a role any more (at the
+time of the revocation or later). -/
+theorem c18_revoked_id_maps_to_no_role (p : Pairing) (now later : Nat) (id tok : String)
+    (hlater : now ≤ later) (h : ∀ e ∈ p.tokens, e.token = tok → e.id = id) :
+    lookupToken (prune later (p.revoke now id).1.tokens) tok = none := by
+  have := revoke_token_none p now id tok h
+  rw [← prune_prune_le hlater]
+  exact lookupToken_none_prune later this
+
+/-- Non-vacuity, end to end: two pairings claimed in the same second get the same id; the administrator
+revokes that id; neither token is accepted afterwards (before, the engineer one could write I/O). -/
+example :
+    let ep : Endpoint :=
+      { authToken := some "T", requiresAuth := false, debugEnabled := true, debugMode := false,
+        pairing := some ⟨[], none⟩, now := 1000 }
+    let req (id : Nat) (ty : String) (auth : String) (nonce : String) (ps : List Entry) : Event :=
+      .line (.request { id := id, type := ty, auth := some auth, nonce := nonce, params := .object ps })
+    let pairTwo : List Event :=
+      [req 1 "pair.start" "T" "111111" [], req 2 "pair.claim" "T" "TOKV" [⟨"code", .str "111111", true⟩, ⟨"role", .str "viewer", true⟩],
+       req 3 "pair.start" "T" "222222" [], req 4 "pair.claim" "T" "TOKE" [⟨"code", .str "222222", true⟩, ⟨"role", .str "engineer", true⟩]]
+    ((run ep pairTwo).1.pairingView.map (·.map (·.id))) = some ["pair-1000", "pair-1000"] ∧
+    credentialRole (run ep pairTwo).1 (some "TOKE") = some .engineer ∧
+    (let after := (run ep (pairTwo ++ [req 5 "pair.revoke" "T" "" [⟨"id", .str "pair-1000", true⟩]])).1
+     credentialRole after (some "TOKV") = none ∧ credentialRole after (some "TOKE") = none) := by decide
+
 /-- Observation (not a violation of the stated property, recorded for the maintainers): pair.claim needs
 the operator role, but the claimant chooses the role of the minted token, so an operator who knows the
 pending code obtains an engineer token. -/
